@@ -65,7 +65,7 @@ def check(facts):
             if op["k"] == "const" or b.const_of_operand(op) is not None or masked(b, op, W[dt]):
                 auto += 1
                 continue
-            fn = re.sub(r"::\{closure#\d+\}", "", n)
+            fn = facts.owner_of(n)
             found[(fn, "%s->%s" % (st, dt))].append(s["line"])
     for (fn, kind), lines in sorted(found.items()):
         key = "%s %s" % (fn, kind)
